@@ -468,13 +468,14 @@ func replayDiff(v report.Violation) string {
 
 // ---- (c) slice garbage collection ----
 
-func gcSystem(edits int, chain bool) *world.System {
+func gcSystem(edits int, chain bool, stale int) *world.System {
 	images := map[string]map[string]string{"v1": pkgFiles([]string{"a", "b"}, "1"), "v2": pkgFiles([]string{"a", "c"}, "1"), "v3": pkgFiles([]string{"a", "d"}, "1")}
 	return &world.System{
-		Name: fmt.Sprintf("package updates edits=%d chain=%v", edits, chain),
+		Name: fmt.Sprintf("package updates edits=%d chain=%v stale=%d", edits, chain, stale),
 		Init: func() *world.World {
 			w := newPkgWorld(images, "v1")
 			w.Budget["edit"] = edits
+			w.Budget["stale"] = stale
 			return w
 		},
 		Events: func(w *world.World) []world.Event {
@@ -497,6 +498,31 @@ func gcSystem(edits int, chain bool) *world.System {
 					}})
 				}
 			}
+			// a lagging informer cache: an ObjectSet pass that does not see one of its slices yet
+			if w.Budget["stale"] > 0 {
+				for _, k := range w.S.SortedKeys() {
+					if k.Kind != "ObjectSet" || k.Group != "package-operator.run" {
+						continue
+					}
+					c := w.S.Objs[k].Content
+					if osw.Lifecycle(c) == "Archived" || kmodel.Terminating(c) {
+						continue
+					}
+					for _, ph := range specSlices(c) {
+						for _, sn := range ph {
+							sk := world.PKOKey("ObjectSlice", world.NS, sn)
+							if w.S.Objs[sk] == nil {
+								continue
+							}
+							k, sk := k, sk
+							evs = append(evs, world.Event{Name: fmt.Sprintf("reconcile-stale:os:%s (cache misses slice %s)", k.Name, sk.Name), Apply: func(w *world.World) *world.Pass {
+								w.Budget["stale"]--
+								return w.Reconcile(world.CtrlObjectSet, osw.NN(k.Name), &world.Plan{HideInList: []kmodel.Key{sk}})
+							}})
+						}
+					}
+				}
+			}
 			// objects become ready so that revisions get archived and pruned
 			for _, k := range w.S.SortedKeys() {
 				if k.Group == world.TestGroup && osw.StatusClass(w.S.Objs[k].Content) != "ready" {
@@ -517,6 +543,37 @@ func gcSystem(edits int, chain bool) *world.System {
 			}
 			var out []world.Finding
 			v := osw.View{Before: before.S, Pass: pass}
+			// transparency of the encoding for status: an ObjectSet that claims Available=True has
+			// every object of every slice it references on the cluster
+			for i, r := range pass.Reqs {
+				if r.Key.Kind != "ObjectSet" || r.Sub != "status" || !r.IsWrite() || r.Err != nil || r.Post == nil {
+					continue
+				}
+				if st, _, _, ok := world.Condition(r.Post, "Available"); !ok || st != "True" {
+					continue
+				}
+				for _, ph := range specSlices(r.Post) {
+					for _, sn := range ph {
+						so := v.ContentAt(world.PKOKey("ObjectSlice", world.NS, sn), i)
+						if so == nil {
+							out = append(out, world.Finding{Monitor: "slice-transparency", Identity: "available-with-missing-slice", Message: fmt.Sprintf("status write #%d claims Available=True although the referenced slice %s does not exist", i, sn)})
+							continue
+						}
+						l, _ := so["objects"].([]any)
+						for _, e := range l {
+							m, _ := e.(map[string]any)
+							ob, _ := m["object"].(map[string]any)
+							md, _ := ob["metadata"].(map[string]any)
+							kind, _ := ob["kind"].(string)
+							name, _ := md["name"].(string)
+							oc := v.ContentAt(world.KeyOf(kind, world.NS, name), i)
+							if oc == nil {
+								out = append(out, world.Finding{Monitor: "slice-transparency", Identity: "available-without-slice-object", Message: fmt.Sprintf("status write #%d of %s claims Available=True although %s/%s, listed in its slice %s, does not exist (an inline ObjectSet could not say so, C06)", i, r.Key.Name, kind, name, sn)})
+							}
+						}
+					}
+				}
+			}
 			for i, r := range pass.Reqs {
 				if r.Key.Kind != "ObjectSlice" || r.Verb != "delete" || !r.IsWrite() || r.Err != nil {
 					continue
@@ -563,14 +620,28 @@ func gcSystem(edits int, chain bool) *world.System {
 
 func runGC(o checks.Opts) *report.Report {
 	rep := report.New("C14", "slice-gc")
-	rep.Rule = "explicit-state BFS: Package p (EachObject chunking) updated twice among v1{a,b}, v2{a,c}, v3{a,d} (quick: v1 -> v2 -> v3; thorough: any to any) (so that a slice can be referenced only by an archived revision that still exists) with the real Package, ObjectDeployment and ObjectSet controllers in any order, objects becoming ready, garbage collector; on every ObjectSlice delete the slice must be referenced neither by the deployment's template nor by any existing ObjectSet at that instant"
+	rep.Rule = "explicit-state BFS: Package p (EachObject chunking) updated twice among v1{a,b}, v2{a,c}, v3{a,d} (quick: v1 -> v2 -> v3; thorough: any to any) (so that a slice can be referenced only by an archived revision that still exists) with the real Package, ObjectDeployment and ObjectSet controllers in any order, objects becoming ready, garbage collector, (budgeted) an ObjectSet pass whose cache does not show one of its slices yet; on every Available=True status write every object of every referenced slice exists on the cluster; on every ObjectSlice delete the slice must be referenced neither by the deployment's template nor by any existing ObjectSet at that instant"
 	edits, chain := 2, true
 	if !o.Quick() {
 		chain = false // any image to any other image
 	}
-	sys := gcSystem(edits, chain)
-	sys.MaxStates = 600000
-	osw.RunBFS(rep, sys, map[string]any{"edits": edits, "chain": chain})
+	type cfg struct {
+		edits int
+		chain bool
+		stale int
+	}
+	cfgs := []cfg{{edits, chain, 0}, {1, true, 1}}
+	if !o.Quick() {
+		cfgs = append(cfgs, cfg{2, true, 1})
+	}
+	for i, c := range cfgs {
+		if o.Shards > 1 && i%o.Shards != o.Shard {
+			continue
+		}
+		sys := gcSystem(c.edits, c.chain, c.stale)
+		sys.MaxStates = 600000
+		osw.RunBFS(rep, sys, map[string]any{"edits": c.edits, "chain": c.chain, "stale": c.stale})
+	}
 	rep.Bounds["edits"] = edits
 	rep.Bounds["any_to_any"] = !chain
 	rep.Samples = append(rep.Samples, []string{"reconcile:pkg:p", "reconcile:od:p", "user:set-image:v2", "reconcile:pkg:p", "reconcile:od:p"})
@@ -579,7 +650,9 @@ func runGC(o checks.Opts) *report.Report {
 
 func replayGC(v report.Violation) string {
 	chain, _ := v.Params["chain"].(bool)
-	return osw.ReplayBFS(gcSystem(2, chain), v)
+	edits, _ := v.Params["edits"].(float64)
+	stale, _ := v.Params["stale"].(float64)
+	return osw.ReplayBFS(gcSystem(int(edits), chain, int(stale)), v)
 }
 
 func init() {
@@ -593,7 +666,12 @@ func init() {
 			{Name: "chunking", Shards: func(string) int { return 16 }, Run: runChunking},
 			{Name: "slice-names", Run: runNaming},
 			{Name: "inline-vs-sliced", Shards: func(string) int { return 4 }, Run: runDiff, Replay: replayDiff},
-			{Name: "slice-gc", Run: runGC, Replay: replayGC, Parallel: true},
+			{Name: "slice-gc", Shards: func(t string) int {
+				if t == "thorough" {
+					return 3
+				}
+				return 2
+			}, Run: runGC, Replay: replayGC, Parallel: true},
 		},
 	})
 }
